@@ -189,6 +189,14 @@ def expCalls : List GMsg → Bool → List Call
 def GMsg.reenc (cd : Codec) (e : Enc) (m : GMsg) : GMsg :=
   ⟨m.compressed, encode cd e m.compressed m.plain, m.plain⟩
 
+/-- a new adapter of a gRPC stream whose header block selected encoding `e` -/
+def fresh (e : Enc) : Adapter := { enc := e }
+
+/-- Stream bytes received and not yet delivered as whole messages: the buffer, plus the 5-byte
+prefix of the message being read (already taken out of the buffer). The theorems hold while this
+stays below 2^32 + 5, i.e. while `uint32(a.buffer.Len())` is the buffer length at every comparison. -/
+def Adapter.pending (a : Adapter) : Nat := a.buf.length + (if a.reading then 5 else 0)
+
 /-- an adapter between messages with an empty buffer (in particular a new one) -/
 def Adapter.atRest (a : Adapter) : Prop := a.reading = false ∧ a.buf = []
 
